@@ -69,8 +69,9 @@ ASSUMPTIONS = [
     'the neighbour relation is symmetric (C01) and body forces are off',
     'equation parameters are the same object for both arrays; array-level '
     'constants wdeltap, n are equal on both arrays',
-    'glue: double sums of antisymmetric pair terms vanish; torque of central '
-    'pair forces vanishes (mathematics, not machine-checked here)',
+    'glue: double sums of antisymmetric pair terms over a symmetric '
+    'neighbour relation vanish: lemmas/PairSum.lean (Lean 4 + Mathlib, '
+    'compiled in the thorough tier only; stated-without-sorry check in quick)',
 ]
 TRUSTED = []
 
@@ -82,7 +83,7 @@ def tasks(tier):
     # contracts this property ASSUMES from other checks are re-proved here,
     # so that a change to a pair symbol or to a kernel gradient that breaks
     # conservation fails this check too (names prefixed dep.)
-    out += ['dep:symbols']
+    out += ['lemma', 'dep:symbols']
     from contracts import C08
     out += ['dep:kernel:%s:%d' % (cls, max(C08.DIMS[cls]))
             for cls in C08.DIMS]
@@ -325,6 +326,47 @@ def replay_eq(modname, cls, central):
 
 
 # --------------------------------------------------------------------- tasks
+def task_lemma(ctx):
+    """The glue from the per-pair contracts to the property (the sum of an
+    antisymmetric pair term over a symmetric neighbour relation vanishes) is
+    lemmas/PairSum.lean.  Quick tier: the file is present, states the three
+    theorems and contains no sorry/axiom/admit.  Thorough tier: it is
+    compiled by Lean 4 + Mathlib (about 150 s cold)."""
+    import os
+    import re
+    import subprocess
+    here = os.path.dirname(os.path.dirname(os.path.abspath(__file__)))
+    path = os.path.join(here, 'lemmas', 'PairSum.lean')
+    try:
+        src = open(path).read()
+    except OSError:
+        src = ''
+    code = re.sub(r'/-.*?-/', '', src, flags=re.S)
+    code = re.sub(r'--.*', '', code)
+    ok = all(('theorem ' + t) in code for t in (
+        'pair_sum_zero', 'pair_sum_zero_on_neighbours', 'torque_sum_zero')) \
+        and not re.search(r'\b(sorry|axiom|admit|native_decide)\b', code)
+    obs = [Obligation('lemma.pair_sum.stated_without_sorry', [],
+                      z3.BoolVal(bool(ok)), path)]
+    if ctx.tier == 'thorough':
+        try:
+            p_ = subprocess.run(['lean', path], capture_output=True,
+                                text=True, timeout=1800, cwd=os.path.dirname(
+                                    path))
+            good = p_.returncode == 0 and 'error' not in (p_.stdout +
+                                                          p_.stderr)
+            out = (p_.stdout + p_.stderr)[-300:]
+        except Exception as e:
+            good, out = False, str(e)[-200:]
+        obs.append(Obligation('lemma.pair_sum.compiled_by_lean', [],
+                              z3.BoolVal(bool(good)), path,
+                              extra=dict(lean_output=out)))
+    else:
+        ctx.note('lemmas/PairSum.lean is compiled by Lean only in the '
+                 'thorough tier')
+    ctx.prove('lemma.antisymmetric_pair_terms_sum_to_zero', obs)
+
+
 def run_task(task, ctx):
     repo = Repo()
     parts = task.split(':')
@@ -338,6 +380,8 @@ def run_task(task, ctx):
         return task_rho(ctx, repo, parts[1], parts[2], prop)
     if parts[0] == 'w0':
         return task_w0(ctx, repo)
+    if parts[0] == 'lemma':
+        return task_lemma(ctx)
     if parts[0] == 'dep':
         n0 = len(ctx.results)
         if parts[1] == 'symbols':
